@@ -1249,6 +1249,7 @@ func main() {
 		}
 		checkFeedConcurrency(f, res, drv)
 		checkFeedStreams(f, res)
+		checkFeedEpochs(f, res)
 		lib.Finish(f, res)
 	}
 	if f.Replay != "" {
@@ -1259,6 +1260,7 @@ func main() {
 				FeedOps    []feedOp     `json:"feed_ops"`
 				FeedRound  *concRound   `json:"feed_round"`
 				FeedStream *streamRound `json:"feed_stream"`
+				FeedEpochs *epochRound  `json:"feed_epochs"`
 			} `json:"replay"`
 		}
 		if err == nil {
@@ -1278,6 +1280,10 @@ func main() {
 		}
 		if rp.Replay.FeedRound != nil { // one round of concurrent operations on feed.Feed
 			replayConcRound(res, *rp.Replay.FeedRound)
+			lib.Finish(f, res)
+		}
+		if rp.Replay.FeedEpochs != nil {
+			replayEpochRound(res, *rp.Replay.FeedEpochs)
 			lib.Finish(f, res)
 		}
 		if rp.Replay.FeedStream != nil { // one stream round on feed.Feed
@@ -1511,6 +1517,7 @@ func main() {
 		if len(res.Violations) == 0 {
 			checkFeedConcurrency(f, res, drv)
 			checkFeedStreams(f, res)
+			checkFeedEpochs(f, res)
 		} else {
 			res.Note("concurrent feed check skipped: violations already recorded (a broken feed may panic inside its own goroutines)")
 		}
